@@ -80,6 +80,29 @@ def run(ctx):
     verdicts, st = evplane.judge([r[1] for r in res], len(res))
     ctx.states += st["distinct"]; ctx.transitions += st["generated"]
     ctx.tlc_jobs.append({"job": "Trace_Ev verdicts", "runs": len(res), "events": st["events"], "wall_s": round(st["wall"], 2)})
+    # Layer-A fidelity: the same traces replayed against the per-file life cycle of XcpParfile/XcpParblock (advisory)
+    import copy
+    life, lm = evplane.life_judge([r[1] for r in res])
+    ctx.states += lm.distinct; ctx.transitions += lm.generated
+    drifting = [v for v in life if v["drift"]]
+    ctx.notes["lifecycle_fidelity"] = {"runs_replayed_against_the_control_plane_life_cycle": len(life), "files": sum(v["files"] for v in life),
+                                       "runs_with_drift": len(drifting), "examples": [(v["run"], v["drift"][:2]) for v in drifting[:5]]}
+    for v in drifting[:10]:
+        ctx.drift.append({"run": v["run"], "what": v["drift"][:3]})
+    if drifting:
+        from ..common import log
+        log("MODEL-DRIFT: %d traced runs do not follow the per-file life cycle of the control-plane models" % len(drifting))
+    # binding self-test: a trace with two finalisation calls swapped / a copy moved after the chmod must show drift
+    base = next((r[1] for r, v in zip(res, life) if not v["drift"] and any(e.get("kind") == "utimensat" for e in r[1])), None)
+    if base is not None:
+        bad = copy.deepcopy(base)
+        i1 = next(i for i, e in enumerate(bad) if e.get("kind") == "fchmod" and e.get("ph") == "call")
+        i2 = next(i for i, e in enumerate(bad) if e.get("kind") == "utimensat" and e.get("ph") == "call" and e.get("path") == bad[i1]["path"])
+        bad[i1]["kind"], bad[i2]["kind"] = bad[i2]["kind"], bad[i1]["kind"]
+        lv, lm2 = evplane.life_judge([bad])
+        ctx.notes["lifecycle_fidelity"]["corrupted_trace_shows_drift"] = bool(lv[0]["drift"])
+        if not lv[0]["drift"]:
+            raise ToolError("binding self-test failed: a trace with fchmod/utimensat swapped is accepted by TraceA_Life")
     # determinism across runs: TLC compares the outcome records of all runs of one scenario (Trace_Det)
     groups = {}
     for (sc, drv, w, plan, rep, inj), (o, recs, n), v in zip(jobs, res, verdicts):
